@@ -78,9 +78,12 @@ void ellimits(sink& out)
 template<class LT, class RT>
 void el_pair(sink& out, int salt)
 {
-    int nr = thorough() ? 24 : 3;
-    auto ls = number_values<LT>(nr, static_cast<std::uint64_t>(salt) * 10 + 1);
-    auto rs = number_values<RT>(nr, static_cast<std::uint64_t>(salt) * 10 + 2);
+    // thorough: every 8th pair of 8-bit storage types over all 256 x 256 values, the others over the boundary sets
+    // (tier 1) and more random values -- the whole tier stays below ~8 M events
+    int nr = thorough() ? 8 : 3;
+    bool ex8 = salt % 8 == 0;
+    auto ls = number_values<LT>(nr, static_cast<std::uint64_t>(salt) * 10 + 1, thorough() ? 1 : -1, ex8);
+    auto rs = number_values<RT>(nr, static_cast<std::uint64_t>(salt) * 10 + 2, thorough() ? 1 : -1, ex8);
     using namespace cnl::_impl;
     elbin<add_op>(out, "add", ls, rs);
     elbin<subtract_op>(out, "sub", ls, rs);
